@@ -36,6 +36,7 @@ class Site:
     safe: bool
     why: str
     node: ast.AST
+    stable: str = ''     # rename-stable identification of what is iterated (localkeys.stable_key), used by the triage tables
 
 
 def ann_set_elem(ann: str | None):
@@ -188,14 +189,14 @@ class OrderAnalysis:
                         el = self.set_elem(node.iter, env, ci)
                         if el is not None:
                             safe, why = self.loop_body_order_free(node)
-                            out.append(self._site(mname, qn, node.iter, el, 'for', safe, why, node))
+                            out.append(self._site(fn, mname, qn, node.iter, el, 'for', safe, why, node))
                     elif isinstance(node, ast.comprehension):
                         el = self.set_elem(node.iter, env, ci)
                         if el is not None:
                             comp = parents.get(node)
                             kind = type(comp).__name__
                             safe, why = self.comp_consumer(comp, parents)
-                            out.append(self._site(mname, qn, node.iter, el, f'comprehension:{kind}', safe, why, comp))
+                            out.append(self._site(fn, mname, qn, node.iter, el, f'comprehension:{kind}', safe, why, comp))
                     elif isinstance(node, ast.Call):
                         f = node.func
                         name = f.id if isinstance(f, ast.Name) else (f.attr if isinstance(f, ast.Attribute) else None)
@@ -204,30 +205,30 @@ class OrderAnalysis:
                                 el = self.set_elem(a, env, ci)
                                 if el is not None:
                                     safe, why = self.call_consumer(node, parents)
-                                    out.append(self._site(mname, qn, a, el, f'call:{name}', safe, why, node))
+                                    out.append(self._site(fn, mname, qn, a, el, f'call:{name}', safe, why, node))
                         if isinstance(f, ast.Attribute) and name == 'join' and node.args:
                             el = self.set_elem(node.args[0], env, ci)
                             if el is not None:
-                                out.append(self._site(mname, qn, node.args[0], el, 'join', False, '', node))
+                                out.append(self._site(fn, mname, qn, node.args[0], el, 'join', False, '', node))
                         if isinstance(f, ast.Attribute) and name in ('extend', 'extendleft', 'writelines') and node.args:
                             # a sequence extended by a set keeps the set's iteration order
                             el = self.set_elem(node.args[0], env, ci)
                             if el is not None and self.set_elem(f.value, env, ci) is None:
-                                out.append(self._site(mname, qn, node.args[0], el, f'call:{name}', False, '', node))
+                                out.append(self._site(fn, mname, qn, node.args[0], el, f'call:{name}', False, '', node))
                         if isinstance(f, ast.Attribute) and name == 'pop' and not node.args:
                             el = self.set_elem(f.value, env, ci)
                             if el is not None:
-                                out.append(self._site(mname, qn, f.value, el, 'pop', False, '', node))
+                                out.append(self._site(fn, mname, qn, f.value, el, 'pop', False, '', node))
                     elif isinstance(node, ast.AugAssign) and isinstance(node.op, ast.Add):
                         el = self.set_elem(node.value, env, ci)
                         if el is not None and self.set_elem(node.target, env, ci) is None:
-                            out.append(self._site(mname, qn, node.value, el, 'augmented-add', False, '', node))
+                            out.append(self._site(fn, mname, qn, node.value, el, 'augmented-add', False, '', node))
                     elif isinstance(node, ast.Starred) and isinstance(node.ctx, ast.Load):
                         el = self.set_elem(node.value, env, ci)
                         if el is not None:
                             par = parents.get(node)
                             safe = isinstance(par, ast.Set)
-                            out.append(self._site(mname, qn, node.value, el, 'star', safe, 'unpacked into a set display' if safe else '', node))
+                            out.append(self._site(fn, mname, qn, node.value, el, 'star', safe, 'unpacked into a set display' if safe else '', node))
         return out
 
     def _module_of(self, node) -> str | None:
@@ -240,11 +241,14 @@ class OrderAnalysis:
                 return mname
         return None
 
-    def _site(self, mname, qn, expr, el, consumer, safe, why, node) -> Site:
+    def _site(self, fn, mname, qn, expr, el, consumer, safe, why, node) -> Site:
+        from .localkeys import stable_key
         key = self.key_of(expr)
         if el.split('[')[0].strip() in DETERMINISTIC_ELEMS or el in ('int',):
             safe, why = True, f'elements are {el}: their iteration order does not depend on the hash seed'
-        return Site(mname, qn, ast.unparse(expr), key, el, consumer, safe, why, node)
+        from .localkeys import masked
+        stable = stable_key(fn, expr) + ' @ ' + ' '.join(masked(fn, node).split())
+        return Site(mname, qn, ast.unparse(expr), key, el, consumer, safe, why, node, stable)
 
     @staticmethod
     def key_of(e) -> str:
@@ -330,6 +334,12 @@ class OrderAnalysis:
             if isinstance(par, ast.Starred):
                 cur = par
                 continue
+            if isinstance(par, (ast.Tuple, ast.List)) and isinstance(par.ctx, ast.Load):
+                cur = par                              # an element of a sequence display: the display keeps the order
+                continue
+            if isinstance(par, ast.For) and par.iter is cur:
+                ok, why = self.loop_body_order_free(par)
+                return (True, 'iterated by a loop whose ' + why) if ok else (False, '')
             if isinstance(par, ast.Call):
                 if isinstance(par.func, ast.Name):
                     if par.func.id in ORDER_FREE_CONSUMERS and not _keyed_sort(par):
